@@ -47,6 +47,15 @@ type c12Open struct {
 	Fams   [2]bool `json:"fams"` // v4, v6 listed in the GR capability (forwarding bit set)
 	LLGR   [2]bool `json:"llgr"`
 	LLTime int     `json:"ll_time"`
+	// LLTime6 != 0: the long-lived time of IPv6 differs from the one of IPv4 (LLTime)
+	LLTime6 int `json:"ll_time6,omitempty"`
+}
+
+func (o c12Open) llTime(v6 bool) int {
+	if v6 && o.LLTime6 != 0 {
+		return o.LLTime6
+	}
+	return o.LLTime
 }
 
 type c12Route struct {
@@ -127,6 +136,12 @@ func drawC12(t *rapid.T) c12Case {
 			}
 		}
 	}
+	if rapid.IntRange(0, 2).Draw(t, "lltime6") == 0 {
+		c.Open.LLTime6 = rapid.SampledFrom([]int{6, 13, 20}).Draw(t, "lltime6_v")
+		if c.Open.LLTime6 == c.Open.LLTime {
+			c.Open.LLTime6 = 0
+		}
+	}
 	// (the server accepts a new connection only after its idle hold time of 5 s)
 	c.OtherSub9 = rapid.Bool().Draw(t, "other_sub9")
 	c.Reconnect = rapid.Bool().Draw(t, "reconnect")
@@ -136,6 +151,9 @@ func drawC12(t *rapid.T) c12Case {
 			c.ReconnectAt = rapid.SampledFrom([]int{6, 8, c.Open.Time - 1, c.Open.Time + 8, c.Open.Time + 8}).Draw(t, "reconnect_at")
 		} else {
 			c.ReconnectAt = c.Open.Time + 8 // (the restart-timer expiry sends the FSM through Idle: 5 s idle hold)
+		}
+		if c.ReconnectAt > c.Open.Time {
+			c.Open.LLTime6 = 0 // (the reconnect positions inside / after the long-lived window assume one window)
 		}
 		c.SecondCycle = rapid.Bool().Draw(t, "second_cycle")
 		for i := range c.Routes {
@@ -150,11 +168,17 @@ func drawC12(t *rapid.T) c12Case {
 			// session in between is not pinned down by the property: not generated
 			c.SecondLoss = false
 		}
-		if c.SecondCycle && !c.SecondLoss && c.ReconnectAt <= c.Open.Time && c.Open.GR && rapid.Bool().Draw(t, "open2") {
+		// (inside the restart window, or after every timer of the first cycle has expired: in both cases what the
+		// second OPEN changes does not touch routes that are LLGR-stale at that moment)
+		if c.SecondCycle && !c.SecondLoss && (c.ReconnectAt <= c.Open.Time || c.ReconnectAt > c.Open.Time+c.Open.LLTime) && c.Open.GR && rapid.Bool().Draw(t, "open2") {
 			o2 := c.Open
 			o2.Time = rapid.SampledFrom([]int{4, 12, 30}).Draw(t, "o2_time")
 			o2.LLGR = [2]bool{b("o2_l4", 1), b("o2_l6", 1)}
 			o2.LLTime = rapid.SampledFrom([]int{6, 20}).Draw(t, "o2_lltime")
+			o2.LLTime6 = rapid.SampledFrom([]int{0, 6, 13, 20}).Draw(t, "o2_lltime6")
+			if o2.LLTime6 == o2.LLTime {
+				o2.LLTime6 = 0
+			}
 			c.Open2 = &o2
 		}
 		order := rapid.Permutation([]bool{false, true}).Draw(t, "eor_order")
@@ -238,6 +262,15 @@ func (m *c12Model) atLLGRTimer() {
 	}
 }
 
+// atLLGRTimerFam: the long-lived timer of one family expired
+func (m *c12Model) atLLGRTimerFam(v6 bool) {
+	for i, r := range m.c.Routes {
+		if r.V6 == v6 {
+			m.routes[i] = c12State{}
+		}
+	}
+}
+
 // ---- harness ----
 
 func c12Prefix(r c12Route) string { return rsPrefix(r.V6, r.Prefix).String() }
@@ -288,9 +321,11 @@ func (x *c12Run) openSpec(restarting bool) simOpenSpec {
 		}
 		if o.LLGR[0] {
 			g.LLGR = append(g.LLGR, uint32(bgp.RF_IPv4_UC))
+			g.LLGRTimes = append(g.LLGRTimes, 0)
 		}
 		if o.LLGR[1] {
 			g.LLGR = append(g.LLGR, uint32(bgp.RF_IPv6_UC))
+			g.LLGRTimes = append(g.LLGRTimes, uint32(o.LLTime6))
 		}
 		spec.GR = g
 	}
@@ -581,6 +616,43 @@ func runC12(t *testing.T) func(c c12Case, st *verifkit.Stats) *verifkit.Failure 
 			}
 			T := time.Duration(c.Open.Time) * time.Second
 			at := func(d time.Duration) { n.advance(x.t0 + d - n.now()) }
+			// llgrPhase steps through the long-lived timers of the families (one window, or one per family when the
+			// peer announced different times): one second before and after each expiry
+			llgrPhase := func(prefix string) *verifkit.Failure {
+				type ev struct {
+					v6 bool
+					d  time.Duration
+				}
+				var evs []ev
+				for _, v6 := range []bool{false, true} {
+					if m.llgrFamily(v6) {
+						evs = append(evs, ev{v6, time.Duration(c.Open.llTime(v6)) * time.Second})
+					}
+				}
+				sort.Slice(evs, func(i, j int) bool { return evs[i].d < evs[j].d })
+				if len(evs) == 2 && evs[0].d != evs[1].d {
+					st.Label("llgr-times-differ-per-family")
+				}
+				for i, e := range evs {
+					if i > 0 && evs[i-1].d == e.d {
+						continue
+					}
+					fam := map[bool]string{false: "ipv4", true: "ipv6"}[e.v6]
+					at(T + e.d - time.Second)
+					if f := x.verify(m, prefix+"one second before the long-lived timer ("+fam+")"); f != nil {
+						return f
+					}
+					at(T + e.d + time.Second)
+					m.atLLGRTimerFam(e.v6)
+					if i+1 < len(evs) && evs[i+1].d == e.d {
+						m.atLLGRTimerFam(evs[i+1].v6)
+					}
+					if f := x.verify(m, prefix+"one second after the long-lived timer ("+fam+")"); f != nil {
+						return f
+					}
+				}
+				return nil
+			}
 			if !c.Reconnect || !m.graceful() || c.Loss == c12AdminDown {
 				at(T - time.Second)
 				if f := x.verify(m, "one second before the restart timer"); f != nil {
@@ -594,14 +666,7 @@ func runC12(t *testing.T) func(c c12Case, st *verifkit.Stats) *verifkit.Failure 
 					return f
 				}
 				if m.llgrNegotiated() && m.graceful() {
-					LL := time.Duration(c.Open.LLTime) * time.Second
-					at(T + LL - time.Second)
-					if f := x.verify(m, "one second before the long-lived timer"); f != nil {
-						return f
-					}
-					at(T + LL + time.Second)
-					m.atLLGRTimer()
-					if f := x.verify(m, "one second after the long-lived timer"); f != nil {
+					if f := llgrPhase(""); f != nil {
 						return f
 					}
 					st.Label("llgr-window")
@@ -751,14 +816,7 @@ func runC12(t *testing.T) func(c c12Case, st *verifkit.Stats) *verifkit.Failure 
 					return f
 				}
 				if m.llgrNegotiated() && m.graceful() {
-					LL := time.Duration(c.Open.LLTime) * time.Second
-					at(T + LL - time.Second)
-					if f := x.verify(m, "second cycle, one second before the long-lived timer"); f != nil {
-						return f
-					}
-					at(T + LL + time.Second)
-					m.atLLGRTimer()
-					if f := x.verify(m, "second cycle, one second after the long-lived timer"); f != nil {
+					if f := llgrPhase("second cycle, "); f != nil {
 						return f
 					}
 				}
